@@ -44,6 +44,25 @@ def sim_uuid4():
 _real_uuid4 = uuid.uuid4
 
 
+class _FakeThread(object):
+    def __init__(self, target=None, daemon=None, args=(), kwargs=None):
+        self.target = target
+        self.daemon = daemon
+
+    def start(self):
+        pass
+
+    def join(self, timeout=None):
+        pass
+
+    def is_alive(self):
+        return False
+
+
+class _FakeThreading(object):
+    Thread = _FakeThread
+
+
 def set_tz(tzstring):
     os.environ["TZ"] = tzstring
     time.tzset()
@@ -80,6 +99,12 @@ def install(repo_py):
     # the simulated disk
     from lsfsim import disk
     st.open = disk.sim_open
+    st.os = disk.SimOS()
+    # the Redis tracker thread never runs as a real thread: invalidations are delivered by the scheduler
+    st.threading = _FakeThreading
+    # when the cyclic garbage collector happens to run the destructor is not the simulator's decision to make:
+    # an orderly shutdown calls stop() explicitly, a crash runs nothing
+    st.RedisStore.__del__ = lambda self: None
     # cache the (expensive, stateless) validator
     from statelint.statelint import StateLint
     _cache = {}
@@ -91,6 +116,22 @@ def install(repo_py):
     ra.StateLint = cached_statelint
     logging.disable(logging.CRITICAL)
     _installed = True
+
+
+_gc_runs = [0]
+
+
+def gc_point():
+    """
+    Called before a run creates its simulator.  The cyclic collector runs finalizers (of tasks, coroutines, async
+    generators of earlier runs) whenever it likes, and some of them schedule work on "the current loop"; so automatic
+    collection is off and garbage is collected here, between runs, where no simulation is in progress.
+    """
+    import gc
+    gc.disable()
+    _gc_runs[0] += 1
+    if _gc_runs[0] % 25 == 0:
+        gc.collect()
 
 
 def per_run(sim, tz="UTC0"):
